@@ -863,3 +863,278 @@ def core_files() -> Tuple[List[Tuple[str, str]], Dict[str, bytes]]:
     """(file name, xml) of the core database + its auxiliary files."""
     return ([("rich_cps.odx-cs", comparam_subset()), ("rich_cpspec.odx-c", comparam_spec()),
              ("rich.odx-d", core_container())], dict(CORE_AUX))
+
+
+# ---------------------------------------------------------------------------
+# feature databases: one risky construct each, on top of a minimal base variant
+
+
+def mini_container(name: str, sections: Dict[str, str] = {}, comms: str = "", requests: str = "",
+                   pos: str = "", layer_head: str = "", layer_tail: str = "",
+                   other_layers: Dict[str, str] = {}, container_head: str = "",
+                   u8_ref_attr: str = "") -> str:
+    """One container `name` with base variant `<name>_bv` (ID prefix L).
+
+    sections: extra content per DIAG-DATA-DICTIONARY-SPEC section tag (merged with the base
+    content); other_layers: {"ECU-VARIANTS": xml, ...} appended after the base variants."""
+    L = "L"
+    sec = dict(sections)
+    sec["DATA-OBJECT-PROPS"] = dop(f"{L}.DOP.u8", "u8", IDENT, dct_std("A_UINT32", 8),
+                                   "A_UINT32") + sec.get("DATA-OBJECT-PROPS", "")
+    sec["STRUCTURES"] = (f'<STRUCTURE ID="{L}.ST.item"><SHORT-NAME>item</SHORT-NAME><PARAMS>' +
+                         p_value("val", f"{L}.DOP.u8", 0) + "</PARAMS></STRUCTURE>" +
+                         sec.get("STRUCTURES", ""))
+    order = ["DTC-DOPS", "ENV-DATA-DESCS", "DATA-OBJECT-PROPS", "STRUCTURES", "STATIC-FIELDS",
+             "DYNAMIC-LENGTH-FIELDS", "DYNAMIC-ENDMARKER-FIELDS", "END-OF-PDU-FIELDS", "MUXS",
+             "ENV-DATAS", "TABLES"]
+    x = HEAD + f'<DIAG-LAYER-CONTAINER ID="DLC.{name}"><SHORT-NAME>{name}</SHORT-NAME>'
+    x += container_head
+    if "PROTOCOLS" in other_layers:
+        x += "<PROTOCOLS>" + other_layers["PROTOCOLS"] + "</PROTOCOLS>"
+    if "ECU-SHARED-DATAS" in other_layers:
+        x += "<ECU-SHARED-DATAS>" + other_layers["ECU-SHARED-DATAS"] + "</ECU-SHARED-DATAS>"
+    x += f'<BASE-VARIANTS><BASE-VARIANT ID="{L}"><SHORT-NAME>{name}_bv</SHORT-NAME>' + layer_head
+    x += "<DIAG-DATA-DICTIONARY-SPEC>"
+    for s in order:
+        if s in sec:
+            x += f"<{s}>{sec[s]}</{s}>"
+    x += "</DIAG-DATA-DICTIONARY-SPEC><DIAG-COMMS>"
+    x += service(f"{L}.SVC.svc", "svc", f"{L}.RQ.svc", [f"{L}.PR.svc"], []) + comms
+    x += "</DIAG-COMMS><REQUESTS>"
+    x += message("REQUEST", f"{L}.RQ.svc", "rq_svc", p_const("sid", 16, 0) +
+                 f'<PARAM xsi:type="VALUE"><SHORT-NAME>x</SHORT-NAME><BYTE-POSITION>1'
+                 f'</BYTE-POSITION><DOP-REF ID-REF="{L}.DOP.u8"{u8_ref_attr}/></PARAM>') + requests
+    x += "</REQUESTS><POS-RESPONSES>"
+    x += message("POS-RESPONSE", f"{L}.PR.svc", "pr_svc", p_const("sid", 80, 0)) + pos
+    x += "</POS-RESPONSES>" + layer_tail + "</BASE-VARIANT></BASE-VARIANTS>"
+    if "ECU-VARIANTS" in other_layers:
+        x += "<ECU-VARIANTS>" + other_layers["ECU-VARIANTS"] + "</ECU-VARIANTS>"
+    return x + "</DIAG-LAYER-CONTAINER>" + TAIL
+
+
+Feature = Tuple[str, str, List[Tuple[str, str]], Dict[str, bytes]]
+
+
+def _svc_with_req(L: str, name: str, sid: int, params: str, pos_params: str = "") -> Tuple[str, str, str]:
+    return (service(f"{L}.SVC.{name}", name, f"{L}.RQ.{name}", [f"{L}.PR.{name}"], []),
+            message("REQUEST", f"{L}.RQ.{name}", "rq_" + name, p_const("sid", sid, 0) + params),
+            message("POS-RESPONSE", f"{L}.PR.{name}", "pr_" + name,
+                    p_const("sid", sid + 64, 0) + pos_params))
+
+
+def feature_files() -> List[Feature]:
+    """[(feature name, element class the feature is about, files, aux)]"""
+    L = "L"
+    F: List[Feature] = []
+
+    def add(fname: str, cls: str, xml: str, more: List[Tuple[str, str]] = [],
+            aux: Dict[str, bytes] = {}) -> None:
+        F.append((fname, cls, [(fname.replace("/", "_") + ".odx-d", xml)] + list(more), dict(aux)))
+
+    # -- parameters whose identity / target the writer may not emit
+    c, r, p = _svc_with_req(L, "lk", 33, param(
+        "LENGTH-KEY", "len", f'<DOP-REF ID-REF="{L}.DOP.u8"/>', 1, attr=f' ID="{L}.RQ.lk.len"'))
+    add("length-key-param", "LengthKeyParameter", mini_container("f_lk", comms=c, requests=r, pos=p))
+
+    plen = dop(f"{L}.DOP.plen", "plen", IDENT,
+               '<DIAG-CODED-TYPE BASE-DATA-TYPE="A_BYTEFIELD" xsi:type="PARAM-LENGTH-INFO-TYPE">'
+               f'<LENGTH-KEY-REF ID-REF="{L}.RQ.pl.len"/></DIAG-CODED-TYPE>', "A_BYTEFIELD")
+    c, r, p = _svc_with_req(L, "pl", 34, param(
+        "LENGTH-KEY", "len", f'<DOP-REF ID-REF="{L}.DOP.u8"/>', 1, attr=f' ID="{L}.RQ.pl.len"') +
+        p_value("data", f"{L}.DOP.plen", 2))
+    add("param-length-info-type", "ParamLengthInfoType",
+        mini_container("f_plen", {"DATA-OBJECT-PROPS": plen}, comms=c, requests=r, pos=p))
+
+    tab = (f'<TABLE ID="{L}.TAB.t"><SHORT-NAME>t</SHORT-NAME><KEY-DOP-REF ID-REF="{L}.DOP.u8"/>'
+           f'<TABLE-ROW ID="{L}.TAB.t.r1"><SHORT-NAME>r1</SHORT-NAME><KEY>1</KEY>'
+           f'<STRUCTURE-REF ID-REF="{L}.ST.item"/></TABLE-ROW>'
+           f'<TABLE-ROW ID="{L}.TAB.t.r2"><SHORT-NAME>r2</SHORT-NAME><KEY>2</KEY>'
+           f'<DATA-OBJECT-PROP-REF ID-REF="{L}.DOP.u8"/></TABLE-ROW></TABLE>')
+    c, r, p = _svc_with_req(L, "te", 35, "", param(
+        "TABLE-ENTRY", "entry", f'<TARGET>KEY</TARGET><TABLE-ROW-REF ID-REF="{L}.TAB.t.r2"/>', 1))
+    add("table-entry-param", "TableEntryParameter",
+        mini_container("f_te", {"TABLES": tab}, comms=c, requests=r, pos=p))
+
+    c, r, p = _svc_with_req(L, "tk", 36, param(
+        "TABLE-KEY", "key", '<TABLE-SNREF SHORT-NAME="t"/>', 1, attr=f' ID="{L}.RQ.tk.key"') +
+        param("TABLE-STRUCT", "data", '<TABLE-KEY-SNREF SHORT-NAME="key"/>', 2),
+        param("TABLE-KEY", "key2", '<TABLE-SNREF SHORT-NAME="t"/>'
+              '<TABLE-ROW-SNREF SHORT-NAME="r1"/>', 1, attr=f' ID="{L}.PR.tk.key2"'))
+    add("table-key-snrefs", "TableKeyParameter",
+        mini_container("f_tk", {"TABLES": tab}, comms=c, requests=r, pos=p))
+
+    tab_sn = (f'<TABLE ID="{L}.TAB.t"><SHORT-NAME>t</SHORT-NAME>'
+              f'<TABLE-ROW ID="{L}.TAB.t.r1"><SHORT-NAME>r1</SHORT-NAME><KEY>1</KEY>'
+              '<STRUCTURE-SNREF SHORT-NAME="item"/></TABLE-ROW>'
+              f'<TABLE-ROW ID="{L}.TAB.t.r2"><SHORT-NAME>r2</SHORT-NAME><KEY>2</KEY>'
+              '<DATA-OBJECT-PROP-SNREF SHORT-NAME="u8"/></TABLE-ROW></TABLE>')
+    add("table-row-snrefs", "TableRow", mini_container("f_trsn", {"TABLES": tab_sn}))
+
+    # -- fields
+    add("dynamic-endmarker-field", "DynamicEndmarkerField", mini_container("f_demf", {
+        "DYNAMIC-ENDMARKER-FIELDS":
+            f'<DYNAMIC-ENDMARKER-FIELD ID="{L}.DEMF.f" IS-VISIBLE="true"><SHORT-NAME>demf'
+            f'</SHORT-NAME><BASIC-STRUCTURE-REF ID-REF="{L}.ST.item"/>'
+            f'<DYN-END-DOP-REF ID-REF="{L}.DOP.u8"><TERMINATION-VALUE>255</TERMINATION-VALUE>'
+            "</DYN-END-DOP-REF></DYNAMIC-ENDMARKER-FIELD>"}))
+    add("static-field-structure-snref", "StaticField", mini_container("f_sfsn", {
+        "STATIC-FIELDS":
+            f'<STATIC-FIELD ID="{L}.SF.f"><SHORT-NAME>sf</SHORT-NAME>'
+            '<BASIC-STRUCTURE-SNREF SHORT-NAME="item"/>'
+            "<FIXED-NUMBER-OF-ITEMS>2</FIXED-NUMBER-OF-ITEMS><ITEM-BYTE-SIZE>1</ITEM-BYTE-SIZE>"
+            "</STATIC-FIELD>"}))
+    envd = (f'<ENV-DATA ID="{L}.ED.all"><SHORT-NAME>env_all</SHORT-NAME><PARAMS>' +
+            p_value("m", f"{L}.DOP.u8", 0) + "</PARAMS><ALL-VALUE/></ENV-DATA>")
+    edd = (f'<ENV-DATA-DESC ID="{L}.EDD.e"><SHORT-NAME>edd</SHORT-NAME>'
+           '<PARAM-SNREF SHORT-NAME="x"/><ENV-DATA-REFS>'
+           f'<ENV-DATA-REF ID-REF="{L}.ED.all"/></ENV-DATA-REFS></ENV-DATA-DESC>')
+    add("end-of-pdu-field-env-data-desc-ref", "EndOfPduField", mini_container("f_eopedd", {
+        "ENV-DATAS": envd, "ENV-DATA-DESCS": edd,
+        "END-OF-PDU-FIELDS":
+            f'<END-OF-PDU-FIELD ID="{L}.EOP.f"><SHORT-NAME>eop</SHORT-NAME>'
+            f'<ENV-DATA-DESC-REF ID-REF="{L}.EDD.e"/></END-OF-PDU-FIELD>'}))
+    add("end-of-pdu-field-env-data-desc-snref", "EndOfPduField", mini_container("f_eopeddsn", {
+        "ENV-DATAS": envd, "ENV-DATA-DESCS": edd,
+        "END-OF-PDU-FIELDS":
+            f'<END-OF-PDU-FIELD ID="{L}.EOP.f"><SHORT-NAME>eop</SHORT-NAME>'
+            '<ENV-DATA-DESC-SNREF SHORT-NAME="edd"/></END-OF-PDU-FIELD>'}))
+    # -- env data desc variants
+    add("env-data-desc-param-snpathref", "EnvironmentDataDescription", mini_container("f_eddp", {
+        "ENV-DATAS": envd,
+        "ENV-DATA-DESCS": edd.replace('<PARAM-SNREF SHORT-NAME="x"/>',
+                                      '<PARAM-SNPATHREF SHORT-NAME-PATH="rq_svc.x"/>')}))
+    add("env-data-desc-inline-env-datas", "EnvironmentDataDescription", mini_container("f_eddi", {
+        "ENV-DATA-DESCS":
+            f'<ENV-DATA-DESC ID="{L}.EDD.e"><SHORT-NAME>edd</SHORT-NAME>'
+            f'<PARAM-SNREF SHORT-NAME="x"/><ENV-DATAS>{envd}</ENV-DATAS></ENV-DATA-DESC>'}))
+    add("env-data-no-all-value", "EnvironmentData", mini_container("f_ednoall", {
+        "ENV-DATAS": envd.replace("<ALL-VALUE/>", "")}))
+    # -- mux with short-name references
+    mux = (f'<MUX ID="{L}.MUX.m"><SHORT-NAME>m</SHORT-NAME><BYTE-POSITION>1</BYTE-POSITION>'
+           f'<SWITCH-KEY><BYTE-POSITION>0</BYTE-POSITION><DATA-OBJECT-PROP-REF ID-REF="{L}.DOP.u8"/>'
+           "</SWITCH-KEY>%s<CASES><CASE><SHORT-NAME>c1</SHORT-NAME>%s" + lim("LOWER-LIMIT", "1") +
+           lim("UPPER-LIMIT", "2") + "</CASE></CASES></MUX>")
+    add("mux-case-structure-snref", "MultiplexerCase", mini_container("f_muxc", {
+        "MUXS": mux % ("", '<STRUCTURE-SNREF SHORT-NAME="item"/>')}))
+    add("mux-default-case-structure-snref", "MultiplexerDefaultCase", mini_container("f_muxd", {
+        "MUXS": mux % ('<DEFAULT-CASE><SHORT-NAME>d</SHORT-NAME>'
+                       '<STRUCTURE-SNREF SHORT-NAME="item"/></DEFAULT-CASE>',
+                       f'<STRUCTURE-REF ID-REF="{L}.ST.item"/>')}))
+    # -- layer level content
+    vg = (f'<VARIABLE-GROUPS><VARIABLE-GROUP ID="{L}.VG.g" OID="oid.vg">' + named("grp") +
+          "</VARIABLE-GROUP></VARIABLE-GROUPS>")
+    dv = (f'<DIAG-VARIABLES><DIAG-VARIABLE ID="{L}.DV.v" OID="oid.dv" IS-READ-BEFORE-WRITE="true">' +
+          named("var") + admin_data("dv", "CD.loc", "TM.loc.doe") +
+          '<SW-VARIABLES><SW-VARIABLE OID="oid.swv">' +
+          named("swv") + "<ORIGIN>somewhere</ORIGIN></SW-VARIABLE></SW-VARIABLES>"
+          '<COMM-RELATIONS><COMM-RELATION VALUE-TYPE="CURRENT">' + desc("relation") +
+          f'<RELATION-TYPE>READ</RELATION-TYPE><DIAG-COMM-REF ID-REF="{L}.SVC.svc"/>'
+          '<IN-PARAM-IF-SNREF SHORT-NAME="x"/></COMM-RELATION>'
+          "<COMM-RELATION><RELATION-TYPE>WRITE</RELATION-TYPE>"
+          '<DIAG-COMM-SNREF SHORT-NAME="svc"/><OUT-PARAM-IF-SNREF SHORT-NAME="sid"/>'
+          "</COMM-RELATION></COMM-RELATIONS>" + sdgs("dv", False) + "</DIAG-VARIABLE>"
+          "</DIAG-VARIABLES>")
+    # (VARIABLE-GROUPS cannot be loaded at all: VariableGroup.from_et raises TypeError, so the
+    # parser does not "read" them and they are out of C11's scope)
+    del vg
+    add("diag-variable", "DiagVariable",
+        mini_container("f_dv", layer_tail=dv, container_head=company_datas("loc")))
+    add("diag-variable-plain", "DiagVariable", mini_container(
+        "f_dvp", layer_tail=f'<DIAG-VARIABLES><DIAG-VARIABLE ID="{L}.DV.v"><SHORT-NAME>var'
+        "</SHORT-NAME></DIAG-VARIABLE></DIAG-VARIABLES>"))
+    dds = ("<DYN-DEFINED-SPEC><DYN-ID-DEF-MODE-INFOS><DYN-ID-DEF-MODE-INFO>"
+           "<DEF-MODE>COMPOSITE</DEF-MODE>"
+           '<CLEAR-DYN-DEF-MESSAGE-SNREF SHORT-NAME="clr"/>'
+           '<READ-DYN-DEF-MESSAGE-SNREF SHORT-NAME="rd"/>'
+           '<DYN-DEF-MESSAGE-SNREF SHORT-NAME="dfn"/>'
+           "<SUPPORTED-DYN-IDS><SUPPORTED-DYN-ID>f200</SUPPORTED-DYN-ID></SUPPORTED-DYN-IDS>"
+           '<SELECTION-TABLE-REFS><SELECTION-TABLE-SNREF SHORT-NAME="t"/>'
+           f'<SELECTION-TABLE-REF ID-REF="{L}.TAB.t"/></SELECTION-TABLE-REFS>'
+           "</DYN-ID-DEF-MODE-INFO></DYN-ID-DEF-MODE-INFOS></DYN-DEFINED-SPEC>")
+    ddsvc = "".join(
+        service(f"{L}.SVC.{n}", n, f"{L}.RQ.svc", [], [], attr=f' DIAGNOSTIC-CLASS="{dc}"')
+        for n, dc in (("clr", "CLEAR-DYN-DEF-MESSAGE"), ("rd", "READ-DYN-DEFINED-MESSAGE"),
+                      ("dfn", "DYN-DEF-MESSAGE")))
+    add("dyn-defined-spec-base-variant", "DynDefinedSpec",
+        mini_container("f_ddsbv", {"TABLES": tab}, comms=ddsvc, layer_tail=dds))
+    ev = ('<ECU-VARIANT ID="LE"><SHORT-NAME>f_ddsev_ev</SHORT-NAME>' +
+          dds.replace(f'<SELECTION-TABLE-REF ID-REF="{L}.TAB.t"/>', "") +
+          '<PARENT-REFS><PARENT-REF ID-REF="L" DOCREF="f_ddsev" DOCTYPE="CONTAINER" '
+          'xsi:type="BASE-VARIANT-REF"/></PARENT-REFS></ECU-VARIANT>')
+    add("dyn-defined-spec-ecu-variant", "DynDefinedSpec",
+        mini_container("f_ddsev", {"TABLES": tab}, comms=ddsvc, other_layers={"ECU-VARIANTS": ev}))
+    add("layer-company-datas", "CompanyData",
+        mini_container("f_lcd", layer_head=company_datas("inlayer")))
+    # -- single ECU job output parameter with OID
+    job = (f'<SINGLE-ECU-JOB ID="{L}.JOB.j"><SHORT-NAME>job</SHORT-NAME><PROG-CODES><PROG-CODE>'
+           "<CODE-FILE>j.jar</CODE-FILE><SYNTAX>JAR</SYNTAX><REVISION>1</REVISION></PROG-CODE>"
+           f'</PROG-CODES><OUTPUT-PARAMS><OUTPUT-PARAM ID="{L}.JOB.j.o" OID="oid.out">'
+           f'<SHORT-NAME>o</SHORT-NAME><DOP-BASE-REF ID-REF="{L}.DOP.u8"/></OUTPUT-PARAM>'
+           "</OUTPUT-PARAMS></SINGLE-ECU-JOB>")
+    del job  # (OUTPUT-PARAM with OID: found by the perturbation of OutputParam.oid)
+    # -- description with external documents
+    add("description-external-docs", "Description", mini_container(
+        "f_extdoc", layer_head='<DESC TI="ti.ext"><p>see also</p><EXTERNAL-DOCS>'
+        '<EXTERNAL-DOC HREF="http://example.org/a">document a</EXTERNAL-DOC>'
+        '<EXTERNAL-DOC HREF="http://example.org/b"/></EXTERNAL-DOCS></DESC>'))
+    # -- sub components
+    dtcdop = (f'<DTC-DOP ID="{L}.DOP.dtcs"><SHORT-NAME>dtcs</SHORT-NAME>' + dct_std("A_UINT32", 24) +
+              '<PHYSICAL-TYPE BASE-DATA-TYPE="A_UINT32"/>' + IDENT +
+              f'<DTCS><DTC ID="{L}.DTC.p1"><SHORT-NAME>P1</SHORT-NAME><TROUBLE-CODE>1</TROUBLE-CODE>'
+              "<TEXT>one</TEXT></DTC></DTCS></DTC-DOP>")
+
+    def subc(inner: str) -> str:
+        return (f'<SUB-COMPONENTS><SUB-COMPONENT ID="{L}.SC.s" OID="oid.sc" SEMANTIC="PART">' +
+                named("part") + inner + "</SUB-COMPONENT></SUB-COMPONENTS>")
+
+    add("sub-component-plain", "SubComponent", mini_container("f_sc0", layer_tail=subc("")))
+    add("sub-component-pattern", "SubComponentPattern", mini_container("f_scp", layer_tail=subc(
+        "<SUB-COMPONENT-PATTERNS><SUB-COMPONENT-PATTERN><MATCHING-PARAMETERS><MATCHING-PARAMETER>"
+        '<EXPECTED-VALUE>1</EXPECTED-VALUE><DIAG-COMM-SNREF SHORT-NAME="svc"/>'
+        '<OUT-PARAM-IF-SNREF SHORT-NAME="sid"/></MATCHING-PARAMETER></MATCHING-PARAMETERS>'
+        "</SUB-COMPONENT-PATTERN></SUB-COMPONENT-PATTERNS>")))
+    add("sub-component-param-connector", "SubComponentParamConnector",
+        mini_container("f_scpc", layer_tail=subc(
+            "<SUB-COMPONENT-PARAM-CONNECTORS>"
+            f'<SUB-COMPONENT-PARAM-CONNECTOR ID="{L}.SCPC.c" OID="oid.scpc">' + named("conn") +
+            '<DIAG-COMM-SNREF SHORT-NAME="svc"/><OUT-PARAM-IF-REFS>'
+            '<OUT-PARAM-IF-SNREF SHORT-NAME="sid"/></OUT-PARAM-IF-REFS><IN-PARAM-IF-REFS>'
+            '<IN-PARAM-IF-SNREF SHORT-NAME="x"/></IN-PARAM-IF-REFS>'
+            "</SUB-COMPONENT-PARAM-CONNECTOR></SUB-COMPONENT-PARAM-CONNECTORS>")))
+    add("sub-component-table-row-connector", "TableRowConnector",
+        mini_container("f_sctr", {"TABLES": tab}, layer_tail=subc(
+            "<TABLE-ROW-CONNECTORS><TABLE-ROW-CONNECTOR>" + named("trc") +
+            f'<TABLE-REF ID-REF="{L}.TAB.t"/><TABLE-ROW-SNREF SHORT-NAME="r1"/>'
+            "</TABLE-ROW-CONNECTOR></TABLE-ROW-CONNECTORS>")))
+    add("sub-component-env-data-connector", "EnvDataConnector",
+        mini_container("f_sced", {"ENV-DATAS": envd, "ENV-DATA-DESCS": edd}, layer_tail=subc(
+            "<ENV-DATA-CONNECTORS><ENV-DATA-CONNECTOR>" + named("edc") +
+            f'<ENV-DATA-DESC-REF ID-REF="{L}.EDD.e"/><ENV-DATA-SNREF SHORT-NAME="env_all"/>'
+            "</ENV-DATA-CONNECTOR></ENV-DATA-CONNECTORS>")))
+    add("sub-component-dtc-connector", "DtcConnector",
+        mini_container("f_scdtc", {"DTC-DOPS": dtcdop}, layer_tail=subc(
+            "<DTC-CONNECTORS><DTC-CONNECTOR>" + named("dc") +
+            f'<DTC-DOP-REF ID-REF="{L}.DOP.dtcs"/><DTC-SNREF SHORT-NAME="P1"/>'
+            "</DTC-CONNECTOR></DTC-CONNECTORS>")))
+    # -- references that leave the document
+    shared = (HEAD + '<DIAG-LAYER-CONTAINER ID="DLC.f_shared"><SHORT-NAME>f_shared</SHORT-NAME>'
+              '<ECU-SHARED-DATAS><ECU-SHARED-DATA ID="S"><SHORT-NAME>f_shared_esd</SHORT-NAME>'
+              "<DIAG-DATA-DICTIONARY-SPEC><DATA-OBJECT-PROPS>" +
+              dop("S.DOP.far", "far", IDENT, dct_std("A_UINT32", 16), "A_UINT32") +
+              "</DATA-OBJECT-PROPS></DIAG-DATA-DICTIONARY-SPEC></ECU-SHARED-DATA>"
+              "</ECU-SHARED-DATAS></DIAG-LAYER-CONTAINER>" + TAIL)
+    c, r, p = _svc_with_req(L, "far", 37, (
+        '<PARAM xsi:type="VALUE"><SHORT-NAME>f</SHORT-NAME><BYTE-POSITION>1</BYTE-POSITION>'
+        '<DOP-REF ID-REF="S.DOP.far" DOCREF="f_shared" DOCTYPE="CONTAINER"/></PARAM>'))
+    add("cross-container-dop-ref", "OdxLinkRef",
+        mini_container("f_xref", comms=c, requests=r, pos=p), more=[("f_shared.odx-d", shared)])
+    # -- prot stack whose subset ID differs from the subset's short name
+    prot = ('<PROTOCOL ID="P"><SHORT-NAME>f_ps_prot</SHORT-NAME>'
+            '<COMPARAM-SPEC-REF ID-REF="CSPEC.f_ps_spec" DOCREF="f_ps_spec" '
+            'DOCTYPE="COMPARAM-SPEC"/></PROTOCOL>')
+    add("prot-stack-subset-ref-docref", "ProtStack",
+        mini_container("f_ps", other_layers={"PROTOCOLS": prot}),
+        more=[("f_ps_cps.odx-cs", comparam_subset("f_ps_cps", "CS.")),
+              ("f_ps_spec.odx-c", comparam_spec("f_ps_spec", "f_ps_cps", "CS.").replace(
+                  'ID="CSPEC.f_ps_spec"', 'ID="CSPEC.f_ps_spec"'))])
+    return F
